@@ -121,7 +121,8 @@ Definition valid_jumpdest (code : list Z) (d : Z) : Prop :=
 (* ------------------------------------------------------------------ memory, call data, code, stack (appendix H.2) *)
 
 (* byte i of a byte string; 0 beyond its end *)
-Definition byte_at (d : list Z) (i : Z) : Z := if i <? 0 then 0 else nth (Z.to_nat i) d 0.
+Definition byte_at (d : list Z) (i : Z) : Z :=
+  if (i <? 0) || (Z.of_nat (length d) <=? i) then 0 else nth (Z.to_nat i) d 0.
 (* the n bytes of d from position start, zeros beyond the end of d *)
 Definition spec_data (d : list Z) (start : Z) (n : nat) : list Z :=
   map (fun k => byte_at d (start + Z.of_nat k)) (seq 0 n).
@@ -149,6 +150,44 @@ Definition spec_DATACOPY (mem d : list Z) (memOff dataOff len : Z) : list Z :=
 Definition spec_DUP (n : nat) (st : list Z) : list Z := nth (n - 1) st 0 :: st.
 Definition spec_SWAP (n : nat) (st : list Z) : list Z :=
   map (fun k => if Nat.eqb k 0 then nth n st 0 else if Nat.eqb k n then nth 0 st 0 else nth k st 0) (seq 0 (length st)).
+
+(* SHA3 relative to the hash function H on byte strings *)
+Definition spec_SHA3 (H : list Z -> list Z) (mem : list Z) (off len : Z) : Z :=
+  spec_be (H (spec_data mem off (Z.to_nat len))).
+
+(* environment instructions: the item of the execution environment I / block header I_H /
+   machine state mu they push, as a machine word *)
+Definition spec_ENV (op : Z) (Ia Io Is Iv Ip : Z) (Id Ib ret : list Z) (Hc Hs Hi Hd Hl : Z) (pc msize_bytes gas : Z) : option Z :=
+  match op with
+  | 0x30 => Some Ia | 0x32 => Some Io | 0x33 => Some Is | 0x34 => Some Iv
+  | 0x36 => Some (Z.of_nat (length Id)) | 0x38 => Some (Z.of_nat (length Ib)) | 0x3a => Some Ip
+  | 0x3d => Some (Z.of_nat (length ret))
+  | 0x41 => Some Hc | 0x42 => Some Hs | 0x43 => Some Hi | 0x44 => Some Hd | 0x45 => Some Hl
+  | 0x58 => Some pc | 0x59 => Some msize_bytes | 0x5a => Some gas
+  | _ => None
+  end.
+
+(* ------------------------------------------------------------------ state-dependent gas (appendix G, H; EIP-150, EIP-161) *)
+
+(* SSTORE: G_sset when a zero slot becomes non-zero, else G_sreset; refund R_sclear when a non-zero slot is cleared *)
+Definition C_sstore (cur new : Z) : Z := if (cur =? 0) && negb (new =? 0) then 20000 else 5000.
+Definition R_sstore (cur new : Z) : Z := if negb (cur =? 0) && (new =? 0) then 15000 else 0.
+
+(* CALL: C_extra = G_call + C_xfer + C_new; dead = account empty (EIP-161) / non-existent (before) *)
+Definition C_xfer (value : Z) : Z := if value =? 0 then 0 else 9000.
+Definition C_new (eip158 : bool) (value : Z) (empty exist : bool) : Z :=
+  if eip158 then (if empty && negb (value =? 0) then 25000 else 0) else (if exist then 0 else 25000).
+Definition C_extra (gcall : Z) (eip158 : bool) (value : Z) (empty exist : bool) : Z :=
+  gcall + C_xfer value + C_new eip158 value empty exist.
+(* total charged for a call-type instruction: extra + memory + the capped gas passed on (which is
+   also the callee's allowance before the stipend) *)
+Definition C_call (extra memfee avail requested : Z) : Z :=
+  extra + memfee + C_gascap avail (extra + memfee) requested.
+
+(* SELFDESTRUCT: G_selfdestruct plus G_newaccount when the beneficiary is created by it; nothing before EIP-150; refund unless already scheduled *)
+Definition C_selfdestruct (gsd gnew : Z) (eip150 eip158 empty exist balanceNonZero : bool) : Z :=
+  if eip150 then gsd + (if eip158 then (if empty && balanceNonZero then gnew else 0) else (if exist then 0 else gnew)) else 0.
+Definition R_selfdestruct (already : bool) : Z := if already then 0 else 24000.
 
 (* ------------------------------------------------------------------ instruction sets *)
 
